@@ -16,11 +16,11 @@ def _make_key(method):
             (
                 method.__qualname__,
                 method.__self__.__class__.__name__,
-                method.__code__.co_varnames,
+                method.__code__,
             )
         )
     else:
-        return hash((method.__qualname__, method.__code__.co_varnames))
+        return hash((method.__qualname__, method.__code__))
 
 
 def signature_cache(user_function):
